@@ -67,14 +67,19 @@ def name_hole(ir):
     return None, None
 
 
+_TWO = [False]           # is the law being read the two-reactant surface law?  (set per method in _r2_r5)
+
+
 def species_role(s):
-    """reac.reactants[0] -> 's', re1/re2 of `re1, re2 = reac.reactants` -> 's1'/'s2', non-grain reactant -> 's', products -> 'PRODUCT'."""
-    if s == ("sub", ("attr", REAC, "reactants"), ("const", 0)):
-        return "s"
+    """the reactant at position 0 -> 's' (one-reactant laws) / 's1' (surface law), position 1 -> 's2', however it is picked
+    (reac.reactants[i], `a, b = reac.reactants`, `(a,) = reac.reactants`); the non-grain reactant -> 'ng'; products -> 'PRODUCT'."""
+    pos = None
     if s[0] == "item" and s[1] == ("attr", REAC, "reactants") and s[2] in (0, 1):
-        return f"s{s[2] + 1}"
-    if s[0] == "sub" and s[1] == ("attr", REAC, "reactants") and s[2][0] == "const" and s[2][1] in (0, 1):
-        return f"s{s[2][1] + 1}"
+        pos = s[2]
+    elif s[0] == "sub" and s[1] == ("attr", REAC, "reactants") and s[2][0] == "const" and s[2][1] in (0, 1):
+        pos = s[2][1]
+    if pos is not None:
+        return f"s{pos + 1}" if _TWO[0] or pos else "s"
     if s[0] == "item" and s[1][0] == "comp" and s[2] == 0:
         # [spec] = [s for s in reac.reactants if not s.is_grain]
         c = s[1]
@@ -218,13 +223,24 @@ def _r8(ctx, pkg):
         return
     ctx.saw("naunet/component.py", "Component._create_species")
     arg = fn.args.args[1].arg if len(fn.args.args) > 1 else None
-    ok = False
-    found = ""
-    for n in ast.walk(fn):
-        if isinstance(n, ast.If) and re.fullmatch(rf"isinstance\({arg}, Species\)", ast.unparse(n.test)):
-            rets = [r for r in n.body if isinstance(r, ast.Return)]
-            found = ast.unparse(rets[0].value) if rets else "no return"
-            ok = len(n.body) == 1 and bool(rets) and isinstance(rets[0].value, ast.Name) and rets[0].value.id == arg
+    # by facts, whatever the control flow (guard clause, if/else, conditional expression): on every path where the argument IS
+    # a Species instance the method returns the argument itself
+    from ..valueflow import guards_satisfiable, peval
+    INST = ("call", ("global", "isinstance"), (("param", arg), ("global", "Species")), ())
+
+    def _priv(name):
+        return pkg.resolve("Component", name)[1] if name.startswith("_") and not name.startswith("__") and name != "_create_species" else None
+    rets = [f for f in Flow(fn, "naunet/component.py", resolver=_priv).facts if f.kind == "return"]
+    on_inst = []
+    for f in rets:
+        gs = [(simp(c), p_) for gd in f.guards for c, p_ in split_guard(gd)]
+        if not guards_satisfiable(gs, [(INST, True)]):
+            continue                          # this return is not reached with a Species instance
+        v = simp(peval(simp(f.value), {INST: True})) if f.value is not None else ("const", None)
+        on_inst.append(v)
+    tested = any(x == INST for f in rets for gd in f.guards for x in walk(simp(gd[0]))) or any(x == INST for f in rets if f.value is not None for x in walk(simp(f.value)))
+    ok = bool(on_inst) and tested and all(v == ("param", arg) for v in on_inst)
+    found = "; ".join(show(v)[:50] for v in on_inst) or "no return"
     ctx.check(ok, "R8", "Component._create_species:instance kept", ("naunet/component.py", fn.lineno),
               "a Species instance handed in is the instance stored" if ok else
               "a Species instance handed in is replaced by a copy / re-parse: values set on the object (explicit binding energy, photodesorption yield, custom alias) are lost and "
@@ -253,7 +269,35 @@ def _r7(ctx, pkg):
     ok = False
     found = ""
     regex_key = None
-    is_tok = lambda x, i: x[0] == "item" and x[2] == i and x[1][0] == "meth" and x[1][2] == "split" and not x[1][3]
+    def tok_index(x):
+        """(the split record, i) when x is the i-th blank-separated token of a record -- `a, b, *_ = line.split()` or
+        `line.split()[i]`, with or without an explicit `None` separator / maxsplit -- else None"""
+        base = i = None
+        if x[0] == "item" and isinstance(x[2], int):
+            base, i = x[1], x[2]
+        elif x[0] == "sub" and x[2][0] == "const" and type(x[2][1]) is int:
+            base, i = x[1], x[2][1]
+        if base is not None and base[0] == "meth" and base[2] == "split" and (not base[3] or base[3][0] == ("const", None)) \
+                and not any(kw != "maxsplit" for kw, _ in base[4]) and i >= 0:
+            return base, i
+        return None
+    is_tok = lambda x, i: tok_index(x) is not None and tok_index(x)[1] == i
+
+    def evidence(k, val):
+        """what is positively wrong with a stored (key, value) pair, or None"""
+        tk = tok_index(k)
+        if tk is not None and tk[1] != 0:
+            return f"the key is token {tk[1]} of the record, not its first token"
+        if tk is None and any(isinstance(y, tuple) and y and tok_index(y) is not None and tok_index(y)[1] == 0 for y in walk(k) if isinstance(y, tuple) and len(y) == 3):
+            return "the key is a transformation of the first token (characters stripped / replaced): neutral and anion rows collapse"
+        tv = [tok_index(y) for y in walk(val) if isinstance(y, tuple) and len(y) == 3 and y[0] in ("item", "sub")]
+        tv = [t for t in tv if t is not None]
+        if tv and all(t[1] != 1 for t in tv):
+            return f"the value is read from token {tv[0][1]} of the record, not from its second token"
+        if tv and not (val[0] == "call" and val[1] == ("global", "float") and len(val[2]) == 1 and tok_index(val[2][0]) is not None):
+            return "the second token is not stored as float(token)"
+        return None
+    why = None
     if acc is None and len(ret) == 1 and ret[0][0] == "comp" and ret[0][1] == "dict":
         # the table as one dict comprehension
         from ..valueflow import expand_bvals
@@ -261,7 +305,9 @@ def _r7(ctx, pkg):
         if kv[0] == "tuple" and len(kv[1]) == 2:
             k, val = kv[1]
             found = f"{show(k)[:70]} : {show(val)[:50]}"
-            ok = is_tok(k, 0) and val[0] == "call" and val[1] == ("global", "float") and is_tok(val[2][0], 1) and k[1] == val[2][0][1]
+            ok = is_tok(k, 0) and val[0] == "call" and val[1] == ("global", "float") and is_tok(val[2][0], 1) and tok_index(k)[0] == tok_index(val[2][0])[0]
+            if not ok:
+                why = why or evidence(k, val)
             if ok:
                 ctx.check(True, "R7", "built-in table:key", (CHEMDATA, fn.lineno), "key = first token of the record, value = float(second token)")
                 return
@@ -275,9 +321,11 @@ def _r7(ctx, pkg):
         if kv:
             k, val = kv
             found = f"{show(k)[:70]} : {show(val)[:50]}"
-            ok = is_tok(k, 0) and val[0] == "call" and val[1] == ("global", "float") and is_tok(val[2][0], 1) and k[1] == val[2][0][1]
+            ok = is_tok(k, 0) and val[0] == "call" and val[1] == ("global", "float") and is_tok(val[2][0], 1) and tok_index(k)[0] == tok_index(val[2][0])[0]
             if not ok and k[0] in ("sub", "meth") and "match" in show(k):
                 regex_key = k
+            if not ok:
+                why = why or evidence(k, val)
     if not ok and regex_key is not None:
         # the key comes out of a regular expression: its group must admit the charge signs
         import re._parser as sp
@@ -319,9 +367,13 @@ def _r7(ctx, pkg):
                   "stored under the neutral's name and overwrite it (OH 2850 K -> 1260 K): every rate of that ice species uses the anion's binding energy",
                   expected="key = first blank-separated token of the record", found=found)
         return
-    ctx.check(ok, "R7", "built-in table:key", (CHEMDATA, writes[0].line if writes else fn.lineno),
-              "key = first token of the record, value = float(second token)" if ok else "the record is not stored as {first token: float(second token)}",
-              expected="elem, eb, *_ = line.split(); table[elem] = float(eb)", found=found)
+    if ok or why:
+        ctx.check(ok, "R7", "built-in table:key", (CHEMDATA, writes[0].line if writes else fn.lineno),
+                  "key = first token of the record, value = float(second token)" if ok else f"the record is not stored as {{first token: float(second token)}}: {why}",
+                  expected="elem, eb, *_ = line.split(); table[elem] = float(eb)", found=found)
+    else:
+        ctx.unrec("R7", "built-in table:key", (CHEMDATA, writes[0].line if writes else fn.lineno),
+                  f"cannot see how the records of the built-in table are turned into (key, value) pairs: {found or show(ret[0])[:100] if ret else 'no return'}")
 
 
 CONST_C = "naunet/templates/base/cpp/src/naunet_constants.cpp.j2"
@@ -335,7 +387,8 @@ def _r6(ctx):
     n = 0
     for rel, need_value in ((CONST_C, True), (CONST_H, False)):
         ctx.saw(rel)
-        loops = [it for it, _ in J.walk_items(J.flatten(ctx.tree, rel, {})) if it[0] == "for" and any(x[0] == "text" and x[1].rstrip().endswith("eb_") for x in it[3])]
+        # ({% set %} names and macro parameters read as what they stand for; a loop over `S | map(..)` already iterates S)
+        loops = [it for it, _ in J.walk_items(J.inline_sets(J.flatten(ctx.tree, rel, {}))) if it[0] == "for" and any(x[0] == "text" and x[1].rstrip().endswith("eb_") for x in it[3])]
         if len(loops) != 1:
             ctx.missing("R6", f"{rel}:eb_ loop", (rel, 0), f"expected one loop emitting eb_<alias>, found {len(loops)}")
             continue
@@ -368,19 +421,33 @@ def _r1(ctx, rm, pkg):
         ci = pkg.cls(G)
         ctx.check("rateexpr" not in ci.methods, "R1", f"{G}:rateexpr not overridden", (ci.file, ci.node.lineno),
                   "the dispatch and the NotImplemented -> NotImplementedError conversion are inherited from Grain.rateexpr")
-    # the conversion itself
-    fn = g.methods["rateexpr"]
-    conv = None
-    for n in ast.walk(fn):
-        if isinstance(n, ast.If) and isinstance(n.test, ast.Compare) and isinstance(n.test.ops[0], (ast.Is, ast.Eq)) and \
-                ast.unparse(n.test.comparators[0]) == "NotImplemented" and isinstance(n.test.left, ast.Name) and \
-                any(isinstance(r, ast.Return) and isinstance(r.value, ast.Name) and r.value.id == n.test.left.id for r in ast.walk(fn)):     # the tested name is the one returned
-            if n.body and isinstance(n.body[0], ast.Raise) and "NotImplementedError" in ast.unparse(n.body[0]):
-                conv = n
-    rets = [n for n in ast.walk(fn) if isinstance(n, ast.Return)]
-    ctx.check(conv is not None and all(r.lineno > conv.lineno for r in rets), "R1", "Grain.rateexpr:NotImplemented->error", (g.file, fn.lineno),
+    # the conversion itself, read off the facts of Grain.rateexpr whatever the spelling (`if rate is NotImplemented: raise`, a
+    # guard clause `if rate is not NotImplemented: return rate` followed by the raise, the test in a helper): some raise of
+    # NotImplementedError sits under `X is NotImplemented`, and every value the method returns is that X on a path where the test failed
+    def _priv(name):
+        return pkg.resolve("Grain", name)[1] if name.startswith("_") and not name.startswith("__") else None
+    try:
+        fn = pkg.expanded("Grain", "rateexpr", keep=tuple(gm.values()))
+    except Exception:
+        fn = g.methods["rateexpr"]
+    rfl = Flow(fn, g.file, resolver=_priv)
+    NI = ("global", "NotImplemented")
+
+    def ni_test(gd):
+        """X of a guard `X is NotImplemented` / `X == NotImplemented` in positive form -> (X, polarity) or None"""
+        c, pol = norm_guard((simp(gd[0]), gd[1]))
+        if c[0] == "cmp" and c[1] in (("Is",), ("Eq",)) and len(c[2]) == 2 and NI in c[2]:
+            return (c[2][0] if c[2][1] == NI else c[2][1]), pol
+        return None
+    raised = {t[0] for f in rfl.facts if f.kind == "raise" and f.value is not None and "NotImplementedError" in show(f.value)
+              for gd in f.guards for sg in split_guard(gd) for t in [ni_test(sg)] if t is not None and t[1]}
+    rets = [f for f in rfl.facts if f.kind == "return" and f.value is not None]
+    conv_ok = bool(raised) and bool(rets) and all(
+        simp(f.value) in raised and any(t is not None and t[0] == simp(f.value) and not t[1] for gd in f.guards for sg in split_guard(gd) for t in [ni_test(sg)]) for f in rets)
+    ctx.check(conv_ok, "R1", "Grain.rateexpr:NotImplemented->error", (g.file, fn.lineno),
               "a NotImplemented result raises NotImplementedError before anything is returned",
-              expected="if rate is NotImplemented: raise NotImplementedError(..)")
+              expected="if rate is NotImplemented: raise NotImplementedError(..)",
+              found="; ".join(f"return {show(simp(f.value))[:40]} under {[show(c)[:40] + '=' + str(p_) for c, p_ in f.guards][-2:]}" for f in rets)[:300])
     n = 0
     for G in GRAIN_CLASSES:
         for tau, mname in sorted(gm.items(), key=lambda kv: str(kv[0])):
@@ -402,25 +469,57 @@ def _r1(ctx, rm, pkg):
             # overrides call super() first
             if dc != "Grain":
                 first = fn.body[0]
-                if isinstance(first, ast.Expr) and isinstance(first.value, ast.Constant):
+                if isinstance(first, ast.Expr) and isinstance(first.value, ast.Constant) and len(fn.body) > 1:
                     first = fn.body[1]
                 src = ast.unparse(first)
-                ctx.check(src == f"super().{mname}(reac)", "R1", f"{dc}.{mname}:super-first", (pkg.cls(dc).file, fn.lineno),
+                ctx.check(_is_base_call(pkg, dc, fn, mname, first), "R1", f"{dc}.{mname}:super-first", (pkg.cls(dc).file, fn.lineno),
                           "the override first runs the base method (type and arity validation)", expected=f"super().{mname}(reac)", found=src[:60])
     ctx.floor("R1", "(grain class, type) pairs", n, 45)
-    # base validation present
+    # base validation present: some raise of the base method sits on the path where reac.reaction_type differs from the type the
+    # dispatch sends here (read off the facts, private validation helpers put back)
+    RT = ("attr", REAC, "reaction_type")
     for tau, mname in gm.items():
         fn = g.methods.get(mname)
         if fn is None:
             continue
-        t = [x for x in ast.walk(fn) if isinstance(x, ast.If) and "reaction_type" in ast.unparse(x.test) and isinstance(x.body[0], ast.Raise)]
+        try:
+            fx = pkg.expanded("Grain", mname)
+        except Exception:
+            fx = fn
+        # the parameter may have any name: the reaction is the method's own (second) parameter
+        pname = fx.args.args[1].arg if len(fx.args.args) > 1 else "reac"
         ok = False
-        for x in t:
-            c = x.test
-            if isinstance(c, ast.Compare) and isinstance(c.ops[0], ast.NotEq):
-                val = rm._enum_expr("Grain", c.comparators[0])
-                ok = ok or val == tau
+        for f in Flow(fx, g.file, consts=rm.module_consts(g.file)).facts:
+            if f.kind != "raise":
+                continue
+            for gd in f.guards:
+                for sg in split_guard(gd):
+                    c, pol = norm_guard((simp(sg[0]), sg[1]))
+                    if c[0] == "cmp" and c[1] == ("Eq",) and len(c[2]) == 2 and not pol:
+                        a, b = c[2]
+                        for x, y in ((a, b), (b, a)):
+                            if x == ("attr", ("param", pname), "reaction_type") and rm.enum_of_ir("Grain", y) == tau:
+                                ok = True
         ctx.check(ok, "R1", f"Grain.{mname}:type-validation", (g.file, fn.lineno), f"the base method refuses reactions whose type is not {tau}")
+
+
+def _is_base_call(pkg, dc, fn, mname, st) -> bool:
+    """is statement `st` of override `dc.mname` the call of the base-class method with the override's own argument?
+    super().m(reac) / super(Cls, self).m(reac) / Base.m(self, reac)"""
+    if not (isinstance(st, ast.Expr) and isinstance(st.value, ast.Call) and isinstance(st.value.func, ast.Attribute) and st.value.func.attr == mname):
+        return False
+    call, recv = st.value, st.value.func.value
+    params = [a.arg for a in fn.args.args]
+    if len(params) < 2 or call.keywords:
+        return False
+    own = lambda args: len(args) == 1 and isinstance(args[0], ast.Name) and args[0].id == params[1]
+    if isinstance(recv, ast.Call) and isinstance(recv.func, ast.Name) and recv.func.id == "super" and not recv.keywords:
+        if recv.args and not (len(recv.args) == 2 and isinstance(recv.args[0], ast.Name) and recv.args[0].id == dc and isinstance(recv.args[1], ast.Name) and recv.args[1].id == params[0]):
+            return False
+        return own(call.args)
+    if isinstance(recv, ast.Name) and recv.id in pkg.mro(dc)[1:] and pkg.resolve(recv.id, mname)[1] is not None:
+        return len(call.args) == 2 and isinstance(call.args[0], ast.Name) and call.args[0].id == params[0] and own(call.args[1:])
+    return False
 
 
 def _r2_r5(ctx, rm, pkg):
@@ -436,6 +535,7 @@ def _r2_r5(ctx, rm, pkg):
         if not vs:
             ctx.bad("R5", f"{cls}.{mname}", (ci.file, ci.methods[mname].lineno), "no rate template extracted from this method")
             continue
+        _TWO[0] = mname == _SURF[0]
         for vi, v in enumerate(vs):
             n += 1
             txt = v.text
@@ -458,6 +558,10 @@ def _r2_r5(ctx, rm, pkg):
             # reactants (GRAIN- + X+) has no fixed reactant order (the naunet writer sorts by name): position is not the ion.
             allowed = {"s1", "s2"} if mname == _SURF[0] else {"ng"} if mname in GRAIN_REACTANT else {"s", "ng"}
             wrong = [r for r in roles if r not in allowed and r != "PRODUCT"]
+            if unknown and not bad_roles and not wrong:
+                # a hole that is not understood is not evidence of a wrong species
+                ctx.unrec("R2", f"{vkey}:species", (v.file, v.line), f"the template pastes values whose origin is not understood: {unknown}")
+                continue
             ctx.check(not bad_roles and not wrong and not unknown, "R2", f"{vkey}:species", (v.file, v.line),
                       f"species data come from {sorted(roles) or 'no species'} = the reacting species" if not (bad_roles or wrong or unknown) else
                       ("a product's data are used in the rate" if bad_roles else
@@ -521,6 +625,7 @@ def _r2_r5(ctx, rm, pkg):
     ctx.floor("R5", "grain rate templates", n, 20)
     ctx.floor("R5", "signature requirements", nsig, 60)
     # RR07 accretion arms: electron arm has no mass dependence, the other arms have T^(1/2) A^(-1/2)
+    _TWO[0] = False
     vs = [v for v in rm.variants("RR07Grain", "rate_depletion") if v.kind == "text"]
     from ..valueflow import guards_satisfiable
     ELEC = ("attr", ("sub", ("attr", REAC, "reactants"), ("const", 0)), "is_electron")
@@ -552,9 +657,16 @@ def _r3(ctx, pkg):
         if fn is None:
             ctx.missing("R3", f"Species.{prop}", (SPECIES, 0), "property vanished")
             continue
-        fl = Flow(fn, SPECIES)
-        # no write to self.<attr> inside the getter
+        # private helper methods of Species the getter delegates the lookup to are read as part of it
+        def helper(name):
+            return pkg.resolve("Species", name)[1] if name.startswith("_") and not name.startswith("__") else None
+        fl = Flow(fn, SPECIES, resolver=helper)
+        # no write to self.<attr> inside the getter (nor inside a private helper it calls)
+        from .c09 import method_closure
         writes = [f for f in fl.facts if f.kind == "attrstore" and f.extra.get("obj") == SELF]
+        for h in method_closure(pkg, "Species", fn)[1:]:
+            if not any(ast.unparse(d) in ("property", "cached_property", "functools.cached_property") or isinstance(d, ast.Attribute) for d in h.decorator_list):
+                writes += [f for f in Flow(h, SPECIES).facts if f.kind == "attrstore" and f.extra.get("obj") == SELF and f.target == attr]
         ctx.check(not writes, "R3", f"Species.{prop}:no-caching", (SPECIES, writes[0].line if writes else fn.lineno),
                   "the getter does not store the looked-up value in the instance (a later user override / table update is honoured)" if not writes else
                   f"the getter assigns self.{writes[0].target}: the first looked-up value is frozen and later user overrides are ignored")
@@ -642,6 +754,19 @@ MUTANTS = [
     {"name": "binding-energy-cached", "file": SPECIES, "old": "    def binding_energy(self) -> float:\n", "new": "    def binding_energy(self) -> float:\n        if self._binding_energy is None:\n            self._binding_energy = chemistrydata.user_binding_energy.get(self.name)\n", "rules": ["R3"]},
     {"name": "notimplemented-swallowed", "file": GR, "old": "        if rate is NotImplemented:\n            raise NotImplementedError(", "new": "        if rate is NotImplemented:\n            return \"0.0\"\n            raise NotImplementedError(", "rules": ["R1"]},
     {"name": "yield-default-changed", "file": RR, "old": "{spec.photon_yield or 0.1}", "new": "{spec.photon_yield or 1e-3}", "rules": ["R5"]},
+    {"name": "binding-energy-helper-table-before-user", "edits": [
+        {"file": SPECIES, "old": _EB_CHAIN, "new": "        eb = self._lookup_eb()\n"},
+        {"file": SPECIES, "old": "    @property\n    def binding_energy(self) -> float:\n", "new": "    def _lookup_eb(self):\n        if self._binding_energy:\n            return self._binding_energy\n        tab = chemistrydata.rate12_binding_energy.get(self.gasname)\n        if tab:\n            return tab\n        return chemistrydata.user_binding_energy.get(self.name)\n\n    @property\n    def binding_energy(self) -> float:\n"}], "rules": ["R3"]},
+    {"name": "binding-energy-sequential-ifs-user-skipped", "file": SPECIES, "old": _EB_CHAIN, "new": "        eb = self._binding_energy\n        if not eb:\n            eb = chemistrydata.rate12_binding_energy.get(self.gasname)\n", "rules": ["R3"]},
+    {"name": "binding-energy-cached-inside-helper", "edits": [
+        {"file": SPECIES, "old": _EB_CHAIN, "new": "        eb = self._lookup_eb()\n"},
+        {"file": SPECIES, "old": "    @property\n    def binding_energy(self) -> float:\n", "new": "    def _lookup_eb(self):\n        if not self._binding_energy:\n            self._binding_energy = chemistrydata.user_binding_energy.get(self.name) or chemistrydata.rate12_binding_energy.get(self.gasname)\n        return self._binding_energy\n\n    @property\n    def binding_energy(self) -> float:\n"}], "rules": ["R3"]},
+    {"name": "notimplemented-guard-clause-inverted", "file": GR, "old": "        if rate is NotImplemented:\n            raise NotImplementedError(\n                f\"The reaction rate function is not implemented in {self.model}\"\n            )\n\n        return rate\n",
+     "new": "        if rate is NotImplemented:\n            return rate\n        raise NotImplementedError(f\"The reaction rate function is not implemented in {self.model}\")\n", "rules": ["R1"]},
+    {"name": "base-validation-helper-wrong-type", "edits": [
+        {"file": GR, "old": "        if reac.reaction_type != ReactionType.GRAIN_FREEZE:\n            raise ValueError(\"The reaction type is not depletion\")\n", "new": "        self._expect_type(reac, ReactionType.GRAIN_DESORB_THERMAL, \"depletion\")\n"},
+        {"file": GR, "old": "    def rate_depletion(self, reac: Reaction) -> str:\n", "new": "    def _expect_type(self, reaction, wanted, what):\n        if reaction.reaction_type != wanted:\n            raise ValueError(f\"The reaction type is not {what}\")\n\n    def rate_depletion(self, reac: Reaction) -> str:\n", "count": 1}], "rules": ["R1"]},
+    {"name": "create-species-reparses-instances-by-name", "file": "naunet/component.py", "old": '        if isinstance(species_name, Species):\n            return species_name\n\n        if species_name and species_name not in Species.known_pseudoelements():\n            return Species(species_name, **kwargs)\n\n        return None\n', "new": "        if isinstance(species_name, Species):\n            species_name = species_name.name\n        if species_name and species_name not in Species.known_pseudoelements():\n            return Species(species_name, **kwargs)\n\n        return None\n", "rules": ["R8"]},
 ]
 BENIGN = [
     {"name": "binding-energy-guard-clauses", "file": SPECIES, "old": _EB_CHAIN,
@@ -653,6 +778,28 @@ BENIGN = [
      "new": "        else:\n            builders = (\n                (ReactionType.GRAIN_DESORB_REACTIVE, \"rate_reactive_desorption\"),\n                (ReactionType.GRAIN_ECAPTURE, \"rate_electron_capture\"),\n            )\n            for known_type, builder_name in builders:\n                if rtype == known_type:\n                    rate = getattr(self, builder_name)(reac)\n                    break\n            else:\n                raise ValueError(\n                    f\"Unknown reaction type in {self.model} dust model: {rtype}\"\n                )\n"},
     {"name": "factors-reordered", "file": HH, "old": '                f"{opt_thd} * {cov}",\n                f"{nMono} * {densites}",', "new": '                f"{nMono} * {densites}",\n                f"{cov} * {opt_thd}",'},
     {"name": "sqrt-as-pow", "file": GR, "old": 'f"sqrt(8.0 * kerg * {tgas}/ (pi*amu*{spec.A}))"', "new": 'f"pow(8.0 * kerg * {tgas}/ (pi*amu*{spec.A}), 0.5)"'},
+    {"name": "binding-energy-sequential-ifs", "file": SPECIES, "old": _EB_CHAIN, "new": "        eb = self._binding_energy\n        if not eb:\n            eb = chemistrydata.user_binding_energy.get(self.name)\n        if not eb:\n            eb = chemistrydata.rate12_binding_energy.get(self.gasname)\n"},
+    {"name": "binding-energy-lookup-helper", "edits": [
+        {"file": SPECIES, "old": _EB_CHAIN, "new": "        eb = self._lookup_eb()\n"},
+        {"file": SPECIES, "old": "    @property\n    def binding_energy(self) -> float:\n", "new": "    def _lookup_eb(self):\n        if self._binding_energy:\n            return self._binding_energy\n        usr = chemistrydata.user_binding_energy.get(self.name)\n        if usr:\n            return usr\n        return chemistrydata.rate12_binding_energy.get(self.gasname)\n\n    @property\n    def binding_energy(self) -> float:\n"}]},
+    {"name": "photon-yield-local-with-fallback", "file": SPECIES, "old": "        return self._photon_yield or chemistrydata.user_photon_yield.get(self.name, 0.0)\n",
+     "new": "        phyld = self._photon_yield\n        if not phyld:\n            phyld = chemistrydata.user_photon_yield.get(self.name, 0.0)\n        return phyld\n"},
+    {"name": "dispatch-as-class-level-table-scan", "edits": [
+        {"file": GR, "old": "        elif rtype == ReactionType.GRAIN_DESORB_REACTIVE:\n            rate = self.rate_reactive_desorption(reac)\n\n        elif rtype == ReactionType.GRAIN_ECAPTURE:\n            rate = self.rate_electron_capture(reac)\n\n        else:\n            raise ValueError(\n                f\"Unknown reaction type in {self.model} dust model: {rtype}\"\n            )\n",
+         "new": "        else:\n            for known_type, builder_name in self._late_builders:\n                if rtype == known_type:\n                    rate = getattr(self, builder_name)(reac)\n                    break\n            else:\n                raise ValueError(\n                    f\"Unknown reaction type in {self.model} dust model: {rtype}\"\n                )\n"},
+        {"file": GR, "old": "    def rateexpr(self, reac: Reaction) -> str:\n", "new": "    _late_builders = (\n        (ReactionType.GRAIN_DESORB_REACTIVE, \"rate_reactive_desorption\"),\n        (ReactionType.GRAIN_ECAPTURE, \"rate_electron_capture\"),\n    )\n\n    def rateexpr(self, reac: Reaction) -> str:\n"}]},
+    {"name": "notimplemented-guard-clause", "file": GR, "old": "        if rate is NotImplemented:\n            raise NotImplementedError(\n                f\"The reaction rate function is not implemented in {self.model}\"\n            )\n\n        return rate\n",
+     "new": "        if rate is not NotImplemented:\n            return rate\n        raise NotImplementedError(f\"The reaction rate function is not implemented in {self.model}\")\n"},
+    {"name": "base-validation-in-helper", "edits": [
+        {"file": GR, "old": "        if reac.reaction_type != ReactionType.GRAIN_FREEZE:\n            raise ValueError(\"The reaction type is not depletion\")\n", "new": "        self._expect_type(reac, ReactionType.GRAIN_FREEZE, \"depletion\")\n"},
+        {"file": GR, "old": "    def rate_depletion(self, reac: Reaction) -> str:\n", "new": "    def _expect_type(self, reaction, wanted, what):\n        if reaction.reaction_type != wanted:\n            raise ValueError(f\"The reaction type is not {what}\")\n\n    def rate_depletion(self, reac: Reaction) -> str:\n", "count": 1}]},
+    {"name": "super-call-explicit-base", "file": RR, "old": "    def rate_h2_desorption(self, reac: Reaction) -> str:\n        super().rate_h2_desorption(reac)\n", "new": "    def rate_h2_desorption(self, reac: Reaction) -> str:\n        Grain.rate_h2_desorption(self, reac)\n"},
+    {"name": "create-species-if-else", "file": "naunet/component.py", "old": '        if isinstance(species_name, Species):\n            return species_name\n\n        if species_name and species_name not in Species.known_pseudoelements():\n            return Species(species_name, **kwargs)\n\n        return None\n', "new": "        if not isinstance(species_name, Species):\n            if species_name and species_name not in Species.known_pseudoelements():\n                return Species(species_name, **kwargs)\n            return None\n        return species_name\n"},
+    {"name": "eb-const-name-through-set", "file": CONST_C, "old": "double eb_{{ s.alias }}", "new": "{% set ice = s.alias -%}\ndouble eb_{{ ice }}", "count": 1},
+    {"name": "binding-table-tokens-by-index", "file": "naunet/chemistrydata/__init__.py", "old": "                elem, eb, *other = line.split()\n                binding_energy.update({elem: float(eb)})", "new": "                parts = line.split(None, 2)\n                binding_energy[parts[0]] = float(parts[1])"},
+    {"name": "single-reactant-by-unpacking", "file": HH, "old": "        spec = reac.reactants[0]\n        rate = \" * \".join(\n            [\n                f\"{opt_thd} * {cov}\",", "new": "        (spec,) = reac.reactants\n        rate = \" * \".join(\n            [\n                f\"{opt_thd} * {cov}\","},
+    {"name": "surface-reactants-by-index", "file": HH, "old": "        re1, re2 = reac.reactants\n", "new": "        re1 = reac.reactants[0]\n        re2 = reac.reactants[1]\n"},
+    {"name": "tunnelling-test-as-equalities", "file": HH, "old": '        elif re1.name in ["GH", "GH2"]:', "new": '        elif re1.name == "GH" or re1.name == "GH2":'},
 ]
 
 
@@ -714,6 +861,10 @@ def _r12_tunnelling(ctx, pkg):
                     atoms.append(x)
         for a in atoms:
             src = _ast.unparse(a)
+            if isinstance(a, _ast.Compare) and len(a.ops) == 1 and isinstance(a.ops[0], (_ast.Eq, _ast.NotEq)) and isinstance(a.left, _ast.Attribute) \
+                    and isinstance(a.comparators[0], _ast.Constant) and isinstance(a.comparators[0].value, str):
+                # `x.name == "GH"` is `x.name in ["GH"]`
+                a = _ast.copy_location(_ast.Compare(left=a.left, ops=[_ast.In()], comparators=[_ast.copy_location(_ast.List(elts=[a.comparators[0]], ctx=_ast.Load()), a)]), a)
             if isinstance(a, _ast.Compare) and len(a.ops) == 1 and isinstance(a.ops[0], (_ast.In, _ast.NotIn)) and isinstance(a.left, _ast.Attribute) and a.left.attr in ("name", "basename", "gasname", "alias"):
                 lst = a.comparators[0]
                 if isinstance(lst, _ast.Name):
